@@ -3594,6 +3594,36 @@ impl<'a> Model<'a> {
         Ok(())
     }
 
+    /// Puts back a defined name with the formula it had, as stored (undo of a deletion).
+    /// The formula is not validated again: a name whose cells were deleted holds `#REF!`.
+    pub(crate) fn restore_defined_name(
+        &mut self,
+        name: &str,
+        scope: Option<u32>,
+        internal_formula: &str,
+    ) -> Result<(), String> {
+        let sheet_id = match scope {
+            Some(index) => Some(self.workbook.worksheet(index)?.sheet_id),
+            None => None,
+        };
+        let name_upper = name.to_uppercase();
+        if self
+            .workbook
+            .defined_names
+            .iter()
+            .any(|df| df.name.to_uppercase() == name_upper && df.sheet_id == sheet_id)
+        {
+            return Err("Name: Defined name already exists".to_string());
+        }
+        self.workbook.defined_names.push(DefinedName {
+            name: name.to_string(),
+            formula: internal_formula.to_string(),
+            sheet_id,
+        });
+        self.reset_parsed_structures();
+        Ok(())
+    }
+
     /// The context used to parse/stringify defined-name formulas. Defined names
     /// have no natural anchor cell, so we use the first worksheet's A1.
     pub(crate) fn defined_name_context(&self) -> CellReferenceRC {
